@@ -171,7 +171,10 @@ def run_impl(case):
         out = {'ok': enc(res)}
     except Exception as e:
         out = exc_outcome(e)
-    # re-use: the same Group object again, and nested inside a list spec over two copies of the input
+    # re-use: the same Group object again, and nested inside a list spec over two copies of the input — after the caller has
+    # scribbled over the first result (results of separate evaluations share no state)
+    if 'ok' in out:
+        _poison(res)
     try:
         res2 = glom.glom(items, gspec)
         out['second_same'] = ('ok' in out and enc(res2) == out['ok'])
@@ -204,6 +207,19 @@ def run_impl(case):
             out['inside_aggregator_same'] = False
             out['inside_aggregator'] = [type(e).__name__, 'the stand-alone results combined']
     return out
+
+
+def _poison(res, depth=0):
+    if depth > 6:
+        return
+    if isinstance(res, dict):
+        for v in list(res.values()):
+            _poison(v, depth + 1)
+        res['__poison__'] = ['left over']
+    elif isinstance(res, list):
+        for v in list(res):
+            _poison(v, depth + 1)
+        res.append('left over')
 
 
 def _replace(e, a, b):
